@@ -116,7 +116,7 @@ def metamorphic(ctx, tools, programs, n_edits):
     tp = c19templ.pairs()
     if not ctx.thorough:
         off = ctx.seed % 3
-        tp = [p for k, p in enumerate(tp) if k % 3 == off or "parens:adjacent" in p[3]]
+        tp = [p for k, p in enumerate(tp) if k % 3 == off or "parens:adjacent" in p[3] or p[3].startswith("trailing-comma-type")]
     canon_ids = {}
     for name, canon, edited, ekind in tp:
         if canon not in canon_ids:
@@ -232,7 +232,7 @@ def run(ctx):
     tools = vcheck.build_harness()
     ok, failed, log = vcheck.proof_step(
         ctx, "Props/C19.v", ["Lex/LexModel.v", "Lex/LexInst.v", "Lex/LexProofs.v", "Lex/LexSplit.v", "Lex/LexTrivia.v", "Lex/LexFinal.v",
-                             "Parse/Ast.v", "Parse/ParserModel.v", "Parse/TkFacts.v", "Parse/ParserProofs.v", "Parse/ParserPrint.v", "Parse/ParseInst.v"],
+                             "Parse/Ast.v", "Parse/ParserModel.v", "Parse/TkFacts.v", "Parse/ParserProofs.v", "Parse/ParserPrint.v", "Parse/ParserTypes.v", "Parse/ParseInst.v"],
         gen_writer=lambda: gen.regenerate(tools, ["lex", "parse"]), extra_obligation_files=["Lex/LexInst.v", "Parse/ParseInst.v"])
     ctx.cov["trusted_base"] += [
         "translator: harness/cmd/goextract (go/ast) + gen.py -> coq/Gen/LexTables.v (token kinds, keyword map, unicode.Letter ranges)",
